@@ -226,6 +226,55 @@ func findGoroutine(s *stack.Snapshot, fn string) *stack.Goroutine {
 	return nil
 }
 
+// live-dump lexer: the harness's own classification of what the runtime printed into the line
+// classes of Scanner.tla (for Trace_Live)
+var (
+	reLiveHdr     = regexp.MustCompile(`^goroutine (\d+) (?:gp=\S+ m=\S+(?: mp=\S+)? )?\[[^\]]+\]:$`)
+	reLiveFile    = regexp.MustCompile(`^\t\S.*:\d+(?: \+0x[0-9a-f]+)?$`)
+	reLiveCreated = regexp.MustCompile(`^created by \S+`)
+	reLiveFunc    = regexp.MustCompile(`^\S.*\(.*\)$`)
+	reLiveElided  = regexp.MustCompile(`^\.\.\.(additional|\d+) frames elided\.\.\.$`)
+)
+
+type liveLine struct {
+	Lead []string `json:"lead"`
+	Body string   `json:"body"`
+	ID   int      `json:"id"`
+}
+
+func lexLive(dump []byte) ([]liveLine, string) {
+	var out []liveLine
+	text := strings.TrimSuffix(string(dump), "\n")
+	for _, l := range strings.Split(text, "\n") {
+		ll := liveLine{Lead: []string{}}
+		switch {
+		case l == "":
+			ll.Body = "blank"
+		case reLiveHdr.MatchString(l):
+			ll.Body = "hdr"
+			ll.ID, _ = strconv.Atoi(reLiveHdr.FindStringSubmatch(l)[1])
+		case reLiveFile.MatchString(l):
+			ll.Body = "file"
+			ll.Lead = []string{"t"}
+		case strings.HasPrefix(l, "\tgoroutine running on other thread"):
+			ll.Body = "unavail"
+			ll.Lead = []string{"t"}
+		case reLiveCreated.MatchString(l):
+			ll.Body = "created"
+		case reLiveElided.MatchString(l):
+			ll.Body = "elided"
+		case reLiveFunc.MatchString(l):
+			ll.Body = "func"
+		default:
+			return nil, l
+		}
+		out = append(out, ll)
+	}
+	return out, ""
+}
+
+var liveTrace *json.Encoder
+
 func checkLibrarySnapshot(res *Result, c *churn, it int) {
 	dump := selfDump()
 	want := len(reHeaderLine.FindAll(dump, -1))
@@ -266,6 +315,22 @@ func checkLibrarySnapshot(res *Result, c *churn, it int) {
 	}
 	for _, g := range s.Goroutines {
 		res.row("live-state", g.State)
+	}
+	if liveTrace != nil {
+		lines, bad := lexLive(dump)
+		if bad != "" {
+			res.count("live_lines_not_classified", 1)
+			res.row("live-unclassified", bad)
+			return
+		}
+		ids, nc := []int{}, []int{}
+		for _, g := range s.Goroutines {
+			ids = append(ids, g.ID)
+			nc = append(nc, len(g.Stack.Calls))
+		}
+		_ = liveTrace.Encode(map[string]interface{}{"lines": lines, "ids": ids, "ncalls": nc})
+		res.count("live_trace_records", 1)
+		res.count("live_trace_lines", len(lines))
 	}
 }
 
@@ -361,6 +426,7 @@ func init() {
 		iters := c.fs.Int("iters", 60, "library-level self snapshots")
 		nreq := c.fs.Int("requests", 200, "requests (a seeded sample of the table; every invalid class is kept)")
 		big := c.fs.Int("big", 3200, "goroutines parked for the large-dump phase (0 = skip)")
+		liveOut := c.fs.String("live", "", "write the lexed live dumps (ndjson) here, for Trace_Live")
 		_ = c.fs.Parse(args)
 		res := newResult("one case = one self snapshot of the harness process under a churn workload (13 long-lived goroutines in known states + goroutines created and exiting), or one HTTP request of Web.tla's table against webstack.SnapshotHandler with 8 concurrent clients, or one request against a dump larger than 1 MiB with a maxmem that is not a power of two; non-trivial = every case")
 		var univ struct {
@@ -378,6 +444,14 @@ func init() {
 		if len(univ.Requests) == 0 {
 			res.infra("no request table")
 			return res.write(*c.out)
+		}
+		if *liveOut != "" {
+			f, err := os.Create(*liveOut)
+			if err != nil {
+				return err
+			}
+			defer f.Close()
+			liveTrace = json.NewEncoder(f)
 		}
 		ch := startChurn()
 		// library level
